@@ -38,3 +38,21 @@ def list_of_nothing(finding, replay, facts):
 MATCHERS = {
     'list_of_nothing': list_of_nothing,
 }
+
+
+def eq_after_expression(finding, replay, facts):
+  """C11: `e = v` where the left-hand side is a compound expression whose last
+  whitespace-separated token does not start with a lower-case letter (`x + 1 = v`,
+  `(a + b) = v`) is taken for a concise combine `x Op= ...` and rejected with 'Could not
+  parse expression of a value', while `e == v` is accepted."""
+  import re
+  if replay.get('kind') != 'one side rejected':
+    return False
+  if 'sugar_eq' not in (replay.get('label') or ''):
+    return False
+  if 'Could not parse expression of a value' not in (replay.get('why') or ''):
+    return False
+  return bool(re.search(r"[0-9)\]] = ", replay.get('program_b', '')))
+
+
+MATCHERS['eq_after_expression'] = eq_after_expression
